@@ -100,6 +100,7 @@ func c12Plan(rng *lib.Rand, idx uint64) *ref.Plan {
 		Compressed: 20 + rng.Intn(70),
 		MaxFields:  4,
 		NoTimeZero: true,
+		TimeModel:  50,
 		ForceFields: func(r *lib.Rand, g uint16) []byte {
 			var out []byte
 			if r.Chance(6, 10) {
